@@ -784,7 +784,10 @@ static int run(int record)
 				if (!record)
 				{
 					jBegin(); jStr("curve", C.name); jStr("op", "create"); jInt("ok", 1); jInt("n", (long long)C.n);
-					jInt("W", B_PER_W); jInt("valid", ec2IsValid(C.ec, stk(ec2IsValid_deep(C.n)))); jEnd();
+					jInt("W", B_PER_W); jInt("valid", ec2IsValid(C.ec, stk(ec2IsValid_deep(C.n))));
+					/* ec.h: "the pointer to an unsupported function must be null" (tripling is not supported in LD coordinates) -
+					   whatever the memory of the description held before; the field description must be valid in dirty memory too */
+					jInt("tplnull", C.ec->tpl == 0); jInt("fvalid", gf2IsValid(C.f, stk(gf2IsValid_deep(C.n)))); jEnd();
 				}
 			}
 			free(a); free(b); free(pts); free(ord); free(elts);
